@@ -76,9 +76,11 @@ func c01GenCase(r *vc.Rand, idx int, kinds []string, prefix string) *atCase {
 				grp.Stmts = append(grp.Stmts, atGenDelete(r, t, o))
 			case 3:
 				o.shuffleCols = r.Bool()
+				o.mixedArgs = r.Intn(3) == 0
 				grp.Stmts = append(grp.Stmts, atGenInsert(r, t, o, 1, &seq))
 			case 4:
 				o.shuffleCols = r.Bool()
+				o.mixedArgs = r.Intn(3) == 0
 				grp.Stmts = append(grp.Stmts, atGenInsert(r, t, o, 2+r.Intn(2), &seq))
 			case 5:
 				if r.Intn(3) == 0 {
